@@ -427,7 +427,7 @@ def run(ctx):
                      "cap": rng.choice(CAPS), "search_outer": rng.random() < 0.5,
                      "trace": 1500 if c % 2 == 0 else 0, "net": kindnet, "cobj": cobj, "timeout": 30})
     # K2 + oracle: end to end on precondition networks
-    n_net = ctx.n(36, 260)
+    n_net = ctx.n(24, 260)
     nets = []
     for c in range(n_net):
         if ctx.quick:
@@ -466,62 +466,6 @@ def run(ctx):
                      {"minimize": jid, "dp_minimize": r.get("dp_minimize"), "error": r["error"]},
                      key="dp_minimize_float_factor")
             ctx.count("known:dp_minimize_float_factor")
-
-    # ------------------------------------------------------------------ K1
-    cases, recs = [], []
-    for job in jobs:
-        if job["kind"] != "dp":
-            continue
-        r = results[job["id"]]
-        rec = {k: job[k] for k in ("inputs", "output", "size_dict", "simplify", "minimize", "cap", "search_outer")}
-        if r.get("error"):
-            # the property does not speak about perverse networks; on precondition networks
-            # an exception / timeout of the real DP is a failure of the property
-            if job["net"] == "precond":
-                ctx.fail("optimize_optimal_connected failed on a precondition network: %s" % r["error"], rec)
-            else:
-                ctx.count("dp_impl_error_on_perverse_net")
-                ctx.notes.append("perverse net, not judged: %s on %r" % (r["error"], rec)) if len(ctx.notes) < 5 else None
-            continue
-        app, szs = r["app"], r["sizes"]
-        for g in r["groups"]:
-            nt = len(g["where"])
-            common = "%s %s %s %s %s %s %d%%nat %d%%nat (%d)%%Z" % (
-                coq([int(a) for a in app]), coq([Z(s) for s in szs]), job["cobj"],
-                coq(bool(job["search_outer"])), coq([int(w) for w in g["where"]]),
-                "[" + "; ".join(legs_lit(l) for l in g["wlegs"]) + "]", g["ssa0"], FUEL, job["cap"])
-            pairs = [(int(a), int(b)) for a, b in g["pairs"]]
-            try:
-                if "trace" in g:
-                    ev = [([(int(a), int(b)) for a, b in e[0]], Z(num(e[1])), Z(num(e[2])),
-                           [(int(a), int(b)) for a, b in e[3]], Z(num(e[4]))) for e in g["trace"]]
-                    lhs = ("match optimal_connected_tr %s with Some r => Some (fst (snd r), snd (snd (snd r))) "
-                           "| None => None end" % common)
-                    rhs = "(Some (%s, %s))" % (coq(pairs) if pairs else "(@nil (nat*nat))",
-                                               coq(ev) if ev else "(@nil event)")
-                    ctx.count("K1_traced_groups")
-                    ctx.count("K1_trace_events", len(ev))
-                else:
-                    lhs = "option_map snd (optimal_connected %s)" % common
-                    rhs = "(Some %s)" % (coq(pairs) if pairs else "(@nil (nat*nat))")
-            except ValueError as e:
-                ctx.fail("non-integral score in the DP trace: %s" % e, rec, found_input=False)
-                continue
-            cases.append((job["id"], lhs, rhs))
-            recs.append(dict(rec, group=g["where"], impl_pairs=g["pairs"], ncalls=g["ncalls"]))
-            ctx.count("K1_group_size_%d" % nt)
-            if g["ncalls"] and nt >= 3:
-                ctx.count("K1_nontrivial_groups")
-            ctx.case(("dp", job["id"], tuple(g["where"])), nontrivial=nt >= 3,
-                     sample=recs[-1] if len(cases) < 3 else None)
-    failing = ctx.coq_cases("c09_dp", ["Optimal"], cases, chunk=12, timeout=900)
-    for idx, label, val in failing:
-        rec = dict(recs[idx]) if idx < len(recs) else {}
-        rec["model_value"] = val
-        rec["correspondence"] = "Model/Optimal.v optimal_connected[_tr] vs ContractionProcessor.optimize_optimal_connected"
-        ctx.fail("model and implementation disagree on the DP (appended ssa pairs / cost-function call sequence)",
-                 rec, found_input=False)
-    ctx.log("K1 done: %d groups, %d failing (%.1fs)" % (len(cases), len(failing), time.time() - t0))
 
     # ------------------------------------------------------------------ oracle + K2
     enum_limit = ctx.n(6, 7)
@@ -618,7 +562,7 @@ def run(ctx):
                 recs.append(dict(rec, what="Coq enumerated minimum over all_trees"))
                 ctx.count("coq_brute_min_n%d" % n)
     failing = ctx.coq_cases("c09_e2e", ["Optimal"], cases, chunk=16, timeout=1500)
-    for idx, label, val in failing:
+    for idx, label, val in failing[:3]:
         rec = dict(recs[idx]) if idx < len(recs) else {}
         rec["model_value"] = val
         rec["case"] = label
@@ -627,6 +571,62 @@ def run(ctx):
         ctx.fail("model and implementation disagree (optimum, path, spec score or enumerated minimum)",
                  rec, found_input=False)
     ctx.log("K2 done: %d cases, %d failing (%.1fs)" % (len(cases), len(failing), time.time() - t0))
+
+    # ------------------------------------------------------------------ K1
+    cases, recs = [], []
+    for job in jobs:
+        if job["kind"] != "dp":
+            continue
+        r = results[job["id"]]
+        rec = {k: job[k] for k in ("inputs", "output", "size_dict", "simplify", "minimize", "cap", "search_outer")}
+        if r.get("error"):
+            # the property does not speak about perverse networks; on precondition networks
+            # an exception / timeout of the real DP is a failure of the property
+            if job["net"] == "precond":
+                ctx.fail("optimize_optimal_connected failed on a precondition network: %s" % r["error"], rec)
+            else:
+                ctx.count("dp_impl_error_on_perverse_net")
+                ctx.notes.append("perverse net, not judged: %s on %r" % (r["error"], rec)) if len(ctx.notes) < 5 else None
+            continue
+        app, szs = r["app"], r["sizes"]
+        for g in r["groups"]:
+            nt = len(g["where"])
+            common = "%s %s %s %s %s %s %d%%nat %d%%nat (%d)%%Z" % (
+                coq([int(a) for a in app]), coq([Z(s) for s in szs]), job["cobj"],
+                coq(bool(job["search_outer"])), coq([int(w) for w in g["where"]]),
+                "[" + "; ".join(legs_lit(l) for l in g["wlegs"]) + "]", g["ssa0"], FUEL, job["cap"])
+            pairs = [(int(a), int(b)) for a, b in g["pairs"]]
+            try:
+                if "trace" in g:
+                    ev = [([(int(a), int(b)) for a, b in e[0]], Z(num(e[1])), Z(num(e[2])),
+                           [(int(a), int(b)) for a, b in e[3]], Z(num(e[4]))) for e in g["trace"]]
+                    lhs = ("match optimal_connected_tr %s with Some r => Some (fst (snd r), snd (snd (snd r))) "
+                           "| None => None end" % common)
+                    rhs = "(Some (%s, %s))" % (coq(pairs) if pairs else "(@nil (nat*nat))",
+                                               coq(ev) if ev else "(@nil event)")
+                    ctx.count("K1_traced_groups")
+                    ctx.count("K1_trace_events", len(ev))
+                else:
+                    lhs = "option_map snd (optimal_connected %s)" % common
+                    rhs = "(Some %s)" % (coq(pairs) if pairs else "(@nil (nat*nat))")
+            except ValueError as e:
+                ctx.fail("non-integral score in the DP trace: %s" % e, rec, found_input=False)
+                continue
+            cases.append((job["id"], lhs, rhs))
+            recs.append(dict(rec, group=g["where"], impl_pairs=g["pairs"], ncalls=g["ncalls"]))
+            ctx.count("K1_group_size_%d" % nt)
+            if g["ncalls"] and nt >= 3:
+                ctx.count("K1_nontrivial_groups")
+            ctx.case(("dp", job["id"], tuple(g["where"])), nontrivial=nt >= 3,
+                     sample=recs[-1] if len(cases) < 3 else None)
+    failing = ctx.coq_cases("c09_dp", ["Optimal"], cases, chunk=12, timeout=900)
+    for idx, label, val in failing[:3]:
+        rec = dict(recs[idx]) if idx < len(recs) else {}
+        rec["model_value"] = val
+        rec["correspondence"] = "Model/Optimal.v optimal_connected[_tr] vs ContractionProcessor.optimize_optimal_connected"
+        ctx.fail("model and implementation disagree on the DP (appended ssa pairs / cost-function call sequence)",
+                 rec, found_input=False)
+    ctx.log("K1 done: %d groups, %d failing (%.1fs)" % (len(cases), len(failing), time.time() - t0))
 
     ctx.coverage["rule"] = (
         "K1: ContractionProcessor states from precondition networks (1/3) and perverse networks (2/3: repeated "
